@@ -1,3 +1,4 @@
+import Desert.Lemmas.EnumLemmas
 import Desert.Evolution
 import Desert.Lemmas.Misc
 import Desert.Lemmas.Cross
@@ -27,9 +28,10 @@ Proved here:
   `skipped_dedup_breaks_outcome` proves the operational outcome differs from the documented one, and
   the real code agrees with the operational model (known finding D17, `known_findings.txt`).
 
-Not covered by a theorem: evolution steps on a type *nested inside* the record being read with a
-different definition (the nested types are read with the definitions that wrote them); enum
-variants with evolution steps across versions (correspondence: `hist` / `decl`).
+Evolution steps on an enum variant across versions: `evolution_outcome_enum` (constructor by wire index,
+fields by the variant's own history). Not covered by a theorem: evolution steps on a type *nested
+inside* the record being read with a different definition (nested types are read with the
+definitions that wrote them).
 -/
 set_option linter.unusedVariables false
 set_option linter.unusedSimpArgs false
@@ -191,6 +193,135 @@ theorem evolution_outcome (env : Env) (henv : EnvWF env) (idw idr : String) (dw 
     obtain ⟨s', h1, h2⟩ := h
     exact ⟨s', h1, fun hne => by rw [h2.2 hne]; exact view_after_append (view_new _) _⟩
   | error e => rw [hexp] at h; exact h
+
+/-- evolution steps on an **enum variant**: data written by one version of the enum and read by
+another. The constructor is found by its wire index (`w`, the same in both definitions: C13), its
+fields follow the documented outcome of the variant's own history. -/
+theorem evolution_outcome_enum (env : Env) (henv : EnvWF env) (idw idr nw nr : String) (srtw srtr : Bool)
+    (csw csr : List Ctor) (hfw : env.find idw = some (.enum nw srtw csw)) (hfr : env.find idr = some (.enum nr srtr csr))
+    (idx idx' w : Nat) (cw cr : Ctor)
+    (hcw : findCtorWire (wireCtors srtw csw) idx = some (w, cw))
+    (hcr : (wireCtors srtr csr)[w]? = some (idx', cr)) (htr : cr.transient = false)
+    (hal : pairAlignedB cw.decl cr.decl = true)
+    (fields : Val) (st : EncSt) (b : Bytes) (st' : EncSt) (fuel : Nat)
+    (he : enc env (.named idw) (.ctor idx fields) st = .ok (b, st'))
+    (hu : fields.utf8OK) (hst : StOK st) (hd : fields.depth + 1 < fuel)
+    (s : AbsSrc) (t : Bytes) (hw : s.WF) (hv : s.view = b ++ t) (hs : s.strs = st) :
+    Agrees (runAbs (dec env fuel (.named idr)) s)
+      (match expectedFields cw.decl cr.decl (normFields env cw.decl.fields fields) cr.decl.fields with
+        | .ok xs => .ok (.ctor idx' (Val.ofList xs))
+        | .error e => .error e)
+      (fun s' => s'.strs = st' ∧ (cw.decl.steps ≠ [] → s' = s.after b.length st')) := by
+  have hget := findCtorWire_get hcw
+  have hmem : cw ∈ csw := mem_wireCtors (List.mem_of_getElem? hget)
+  have hwf := (henv.enum_ idw nw srtw csw hfw).2 cw hmem
+  have hwlt : w < 2 ^ 32 := by
+    have h1 : w < (wireCtors srtw csw).length := by
+      rcases Nat.lt_or_ge w (wireCtors srtw csw).length with h | h
+      · exact h
+      · simp [List.getElem?_eq_none h] at hget
+    rw [length_wireCtors] at h1
+    have := (henv.enum_ idw nw srtw csw hfw).1
+    omega
+  rw [enc_enum_unfold env idw nw srtw csw idx fields st hfw] at he
+  simp only [hcw] at he
+  split at he
+  · simp at he
+  · -- the variant's record, as encoded
+    cases hrec : encRecord env cw.decl fields st with
+    | ok rb =>
+      obtain ⟨body, stb⟩ := rb
+      have he' : b = 0 :: (uv w ++ body) ∧ st' = stb := by
+        unfold encRecord at hrec
+        cases h1 : recordPre cw.decl st with
+        | ok p1 =>
+          obtain ⟨pre, st1⟩ := p1
+          simp only [h1, Outcome.bind_ok] at he hrec
+          cases h2 : encFields env cw.decl.steps cw.decl.fields fields st1 with
+          | ok p2 =>
+            obtain ⟨fs, st2⟩ := p2
+            simp only [h2, Outcome.bind_ok] at he hrec
+            cases h3 : recordFinish cw.decl pre fs with
+            | ok bb => simp [h3] at he hrec; exact ⟨by rw [← he.1, hrec.1], by rw [← he.2, hrec.2]⟩
+            | err e => simp [h3] at he
+            | panic w' => simp [h3] at he
+          | err e => simp [h2] at he
+          | panic w' => simp [h2] at he
+        | err e => simp [h1] at he
+        | panic w' => simp [h1] at he
+      obtain ⟨rfl, rfl⟩ := he'
+      cases fuel with
+      | zero => omega
+      | succ f =>
+        have hv' : s.view = 0 :: (uv w ++ (body ++ t)) := by simpa using hv
+        have hv1 : (s.after 1 s.strs).view = uv w ++ (body ++ t) := by
+          have := (view_cons hv').2; simpa [adv_eq_after] using this
+        have hw1 : (s.after 1 s.strs).WF := by
+          have := AbsSrc.WF_adv1 hw hv'; simpa [adv_eq_after] using this
+        have hw2 := WF_after hw1 hv1 s.strs
+        have hv2 := view_after_append hv1 s.strs
+        simp only [after_after] at hw2 hv2
+        have key := cross_record env (rt_wf env henv) cw.decl cr.decl hwf hal fields st body st' f hrec hu hst (by omega)
+          (s.after (1 + (uv w).length) s.strs) t hw2 hv2 (by simpa using hs)
+        simp only [dec, decTy, decNamed, hfr]
+        rw [readEnum_head _ nr srtr csr w hwlt s (body ++ t) hv']
+        simp only [hcr, htr, Bool.false_eq_true, if_false]
+        unfold XRec at key
+        unfold Agrees
+        cases hexp : expectedFields cw.decl cr.decl (normFields env cw.decl.fields fields) cr.decl.fields with
+        | ok xs =>
+          rw [hexp] at key
+          obtain ⟨s', hrun, hq⟩ := key
+          simp only
+          have hrun' : runAbs (readRecord cr.decl.steps (declDecs (decTy f (decNamed env f)) cr.decl))
+              (s.after (1 + (uv w).length) s.strs) = .ok (.list (Val.ofList xs), s') := hrun
+          rw [hrun']
+          refine ⟨s', by simp, hq.1, fun hne => ?_⟩
+          rw [hq.2 hne]; simp [Nat.add_assoc]; congr 1; omega
+        | error e =>
+          rw [hexp] at key
+          simp only
+          have hrun' : runAbs (readRecord cr.decl.steps (declDecs (decTy f (decNamed env f)) cr.decl))
+              (s.after (1 + (uv w).length) s.strs) = .err e := key
+          rw [hrun']; rfl
+    | err e =>
+      exfalso
+      unfold encRecord at hrec
+      cases h1 : recordPre cw.decl st with
+      | ok p1 =>
+        obtain ⟨pre, st1⟩ := p1
+        simp only [h1, Outcome.bind_ok] at he hrec
+        cases h2 : encFields env cw.decl.steps cw.decl.fields fields st1 with
+        | ok p2 =>
+          obtain ⟨fs, st2⟩ := p2
+          simp only [h2, Outcome.bind_ok] at he hrec
+          cases h3 : recordFinish cw.decl pre fs with
+          | ok bb => simp [h3] at hrec
+          | err e' => simp [h3] at he
+          | panic w' => simp [h3] at he
+        | err e' => simp [h2] at he
+        | panic w' => simp [h2] at he
+      | err e' => simp [h1] at he
+      | panic w' => simp [h1] at he
+    | panic w0 =>
+      exfalso
+      unfold encRecord at hrec
+      cases h1 : recordPre cw.decl st with
+      | ok p1 =>
+        obtain ⟨pre, st1⟩ := p1
+        simp only [h1, Outcome.bind_ok] at he hrec
+        cases h2 : encFields env cw.decl.steps cw.decl.fields fields st1 with
+        | ok p2 =>
+          obtain ⟨fs, st2⟩ := p2
+          simp only [h2, Outcome.bind_ok] at he hrec
+          cases h3 : recordFinish cw.decl pre fs with
+          | ok bb => simp [h3] at hrec
+          | err e' => simp [h3] at he
+          | panic w' => simp [h3] at he
+        | err e' => simp [h2] at he
+        | panic w' => simp [h2] at he
+      | err e' => simp [h1] at he
+      | panic w' => simp [h1] at he
 
 /-! ### non-vacuity: the repository's own history -/
 
